@@ -517,4 +517,111 @@ class RemoveRedundantHeaders(Contract):
                             on_break=lambda I, env, k: [('every-entry-is-visited', False)], on_exit=lambda I, env, n: [('all-entries-were-visited', n == self._cur.n)], **U)}
 
 
+# ----------------------------------------------------------------------------
+# the sources a splitter knows (what wildcard entries of --order-source expand over)
+# ----------------------------------------------------------------------------
+SPL18 = 'moPepGen/aa/PeptidePoolSplitter.py'
+
+
+class _OrderEnt18:
+    """one key of the order: a plain source name (a str) or a combination (a frozenset of names, possibly with a wildcard character)"""
+    def __init__(self, owner, i):
+        self.owner, self.i = owner, i
+
+    def sym_isinstance(self, I, name):
+        if name == 'str':
+            return self.owner._cur.plain(self.i)
+        if name == 'frozenset':
+            return z3.Not(self.owner._cur.plain(self.i))
+        return False
+
+    def sym_view(self, I):
+        # iterating a combination gives its parts; iterating a plain name gives its characters
+        st = self.owner._cur
+        zz = lambda j: j if is_z3(j) else z3.IntVal(j)
+        return FnView(I.e.int('n_elements'), lambda j: SymObj('ElemOf18', ent=self.i, j=zz(j)), tag='elements of an order entry')
+
+
+@register
+class SplitterSources(Contract):
+    """PeptidePoolSplitter(order=...) without an explicit source set: the sources are exactly those the order names - a plain entry counts as
+    that source itself, a combination contributes each of its parts that is not a wildcard character. (Wildcard entries expand over this
+    set, so a source missing from it is invisible to every X-* / X-+ entry.)"""
+    path, qualname, props = SPL18, 'PeptidePoolSplitter.__init__', ('C18',)
+
+    def setup(self, I):
+        e = I.e
+        st = types.SimpleNamespace(log=[])
+        st.n = e.int('n_order_entries')
+        e.assume(st.n >= 0)
+        st.plain = z3.Function('entry_is_a_plain_source_name', z3.IntSort(), z3.BoolSort())
+        zz = lambda i: i if is_z3(i) else z3.IntVal(i)
+        c = self
+
+        class Order:
+            def sym_view(s_, I2):
+                return FnView(st.n, lambda i: _OrderEnt18(c, zz(i)), tag='keys of the order')
+
+            def sym_truth(s_, I2):
+                return st.n > 0
+        st.order = Order()
+        st.args = [SymObj('PeptidePoolSplitter')]
+        st.kwargs = dict(order=st.order)
+        self._cur = st
+        return st
+
+    @property
+    def models(self):
+        c = self
+
+        def inst(reg):
+            class Sources:
+                def sym_method(s_, I, name, a, k):
+                    if name in ('add', 'update'):
+                        c._cur.log.append((name, a[0]))
+                        return None
+                    raise Unsupported(f'sources.{name}')
+            reg.empty_set_hook = lambda I: Sources()
+            reg.ctor_('LabelSourceMapping', lambda I, a, k: SymObj('LabelSourceMapping'))
+
+            def comp(I, node, env, view, kind):
+                from pyvc.interp import Env
+                from pyvc.core import as_bool
+                g = node.generators[0]
+                if kind == 'list' and isinstance(view, FnView) and view.tag == 'elements of an order entry':
+                    j = z3.Int('j_elem')
+                    el = view.get(j)
+                    sub = Env({}, env)
+                    I.assign(g.target, el, sub)
+                    keep = I.eval(node.elt, sub)
+                    conds = [I.eval(x, sub) for x in g.ifs]
+                    ok = keep is el and len(conds) == 1
+                    return SymObj('ElementsKept18', ent=el.fields['ent'], wildcards_dropped=ok and conds[0] is not None, cond=conds[0] if conds else None)
+                return None
+            reg.comprehension_hooks.append(comp)
+            # `s not in ['+', '*']` on an element of an entry
+            reg.protocol_('ElemOf18', '__eq__', lambda I, a, b: z3.Function('element_is_character', z3.IntSort(), z3.IntSort(), z3.IntSort(), z3.BoolSort())(a.fields['ent'], a.fields['j'], ord(b)) if isinstance(b, str) and len(b) == 1 else False)
+        return (inst,)
+
+    def head(self, I, env, k):
+        self._cur.mark = len(self._cur.log)
+
+    def step(self, I, env, k):
+        st = self._cur
+        new = st.log[st.mark:]
+        if len(new) != 1:
+            return [('every-order-entry-contributes-once', False)]
+        what, v = new[0]
+        if what == 'add':
+            return [('a-plain-entry-is-a-source-itself', z3.And(st.plain(k), v.i == k) if isinstance(v, _OrderEnt18) else False)]
+        good = isinstance(v, SymObj) and v.cls == 'ElementsKept18' and v.fields['wildcards_dropped']
+        return [('the-parts-of-a-combination-are-sources-its-wildcard-characters-are-not-and-a-plain-name-is-never-taken-apart', z3.And(z3.Not(st.plain(k)), v.fields['ent'] == k) if good else False)]
+
+    @property
+    def loops(self):
+        return {0: LoopSpec(inv=lambda I, env, k: [], havoc=lambda I, env, k: None, on_head=self.head, step=self.step, target_after='unknown',
+                            on_break=lambda I, env, k: [('every-order-entry-is-visited', False)],
+                            on_exit=lambda I, env, n: [('all-order-entries-were-visited', n == self._cur.n)])}
+
+
 NATIVE = []
